@@ -986,8 +986,10 @@ func (g *GoFakeS3) putMultipartUploadPart(bucket, object string, uploadID Upload
 		return ErrInvalidPart
 	}
 
+	// (a length of zero is a length: the empty part, which is all there is to
+	// upload for an empty object)
 	size, err := strconv.ParseInt(r.Header.Get("Content-Length"), 10, 64)
-	if err != nil || size <= 0 {
+	if err != nil || size < 0 {
 		return ErrMissingContentLength
 	}
 
